@@ -1,6 +1,6 @@
 (** C04 — whole-history simulation theorems, assembled from the per-heap refinement lemmas. *)
 From Coq Require Import Permutation Lia.
-From Algo.C04 Require Import Model Spec ProofsCommon ProofsBinary ProofsBinomial.
+From Algo.C04 Require Import Model Spec ProofsCommon ProofsBinary ProofsBinomial ProofsFib ProofsMaxDeg.
 
 Section Top.
   Context {K V : Type} (cmp : K -> K -> Z) (eqv : V -> V -> bool) (TO : TotalOrder K cmp).
@@ -73,6 +73,45 @@ Section Top.
     - intros _. apply merge_ok_bnm.
     - intros i h Hi. unfold p_init in Hi. rewrite nth_error_map in Hi.
       destruct (nth_error sizes i); [|discriminate]. injection Hi as <-. apply ninv_new.
+    - unfold plive, p_init. rewrite map_map. exact Hws.
+  Qed.
+
+  (** ** Fibonacci heap *)
+  Definition hinv_fib (h : heap K V) : Prop := match h with HF b => finv cmp b | _ => False end.
+  Definition hbag_fib (h : heap K V) : bag K V := match h with HF b => fbag b | _ => [] end.
+
+  Lemma act_ok_fib h a :
+    hinv_fib h -> not_merge a ->
+    exists h' r, h_act K V cmp eqv a h = Ok (h', r) /\ hinv_fib h' /\
+                 spec_step K V cmp eqv (hbag_fib h) a r (hbag_fib h').
+  Proof.
+    destruct h as [| |b]; simpl; try tauto. intros Hi Hn.
+    destruct (f_act_ok cmp eqv TO maxdeg_ok b a Hi Hn) as (b' & r & -> & Hi' & Hs). simpl.
+    exists (HF b'), r. auto.
+  Qed.
+
+  Lemma merge_ok_fib h hh :
+    hinv_fib h -> hinv_fib hh ->
+    exists h', h_merge K V cmp h hh = Some h' /\ hinv_fib h' /\
+               Permutation (hbag_fib h') (hbag_fib h ++ hbag_fib hh).
+  Proof.
+    destruct h as [| |a], hh as [| |b]; simpl; try tauto. intros Ha Hb.
+    destruct (f_merge_heaps_ok cmp TO a b Ha Hb) as [Hi Hp].
+    eexists. split; [reflexivity|]. simpl. auto.
+  Qed.
+
+  Theorem fibonacci_simulates sizes ops :
+    well_scoped K V true (all_live sizes) ops = true ->
+    accepts K V cmp eqv (empty_bags sizes) ops (run K V cmp eqv Fibonacci sizes ops).
+  Proof.
+    intros Hws. unfold run.
+    replace (empty_bags sizes) with (pabs hbag_fib (p_init K V Fibonacci sizes))
+      by (unfold pabs, p_init, empty_bags; rewrite map_map; reflexivity).
+    apply pool_simulation with (mergeable := true) (hinv := hinv_fib).
+    - apply act_ok_fib.
+    - intros _. apply merge_ok_fib.
+    - intros i h Hi. unfold p_init in Hi. rewrite nth_error_map in Hi.
+      destruct (nth_error sizes i); [|discriminate]. injection Hi as <-. apply finv_new.
     - unfold plive, p_init. rewrite map_map. exact Hws.
   Qed.
 End Top.
